@@ -1,9 +1,9 @@
-\* C25 / C26 exhaustive, thorough: every tree of 4 free blocks on 3 fork points (one below the margin), works 1..2, duplicates
+\* C25 / C26 exhaustive, thorough: every tree of 5 free blocks hanging off the trunk tip, works 1..2, duplicates
 SPECIFICATION Spec
 CONSTANTS
   Trees <- Empty
-  NGrow = 4
-  GrowForks = {10, 11, 12}
+  NGrow = 5
+  GrowForks = {12}
   GrowWorks = {1, 2}
   TrunkH = 12
   BaseH = 10
